@@ -397,6 +397,21 @@ impl Watchdog for SimWatchdog {
     }
 }
 
+pub fn make_watchdog_pub(plan: &WdPlan) -> (DynWatchdog, Rc<WdStats>) {
+    make_watchdog(plan)
+}
+
+pub fn capture_panics(on: bool) {
+    CAPTURE.with(|c| c.set(on));
+    if on {
+        LAST_PANIC.with(|p| *p.borrow_mut() = None);
+    }
+}
+
+pub fn take_last_panic() -> Option<PanicInfo> {
+    LAST_PANIC.with(|p| p.borrow_mut().take())
+}
+
 fn make_watchdog(plan: &WdPlan) -> (DynWatchdog, Rc<WdStats>) {
     let stats = Rc::new(WdStats::default());
     let wd: DynWatchdog = match plan.kind {
@@ -856,7 +871,8 @@ fn vm_stats(vm: &VM, code: &[u8], exec_ok: bool) -> VmStats {
         for off in 0..len {
             if let Some(opc) = t.instruction(off) {
                 costs[off as usize] = opc.min_gas_cost();
-                if opc.as_byte() == 0x5b && opc.as_text_code().to_uppercase().contains("JUMPDEST") {
+                // (`as_byte` panics by design on the push-data placeholder.)
+                if opc.as_ref().as_any().downcast_ref::<sle::opcode::control::JumpDest>().is_some() {
                     is_jd[off as usize] = true;
                 }
             }
